@@ -384,5 +384,8 @@ var c15MAC = probe.Define("C15", "at-mac", c15Gen, c15Oracle)
 
 func TestC15(t *testing.T) {
 	c := probe.NewCtx(t, "C15")
+	if c.Shard == 0 {
+		endurance(c, "C15", "aka-setattr-gaps", 70000)
+	}
 	c15MAC.Run(c, t, c.N(1500, 15000))
 }
